@@ -28,8 +28,10 @@ def reindent (sep : Str) (s : Str) : Str := joinWith (['\n'] ++ sep) (splitOnCha
 def keyOf (name : Str) : Str := if name == retName then kReturns else kParam ++ name
 def keyTypOf (name : Str) : Str := if name == retName then kRtype else kType ++ name
 
-/-- `_param2docstring_param((name, param))`; `none` = the entry writes nothing -/
-def entryBlock (name : Str) (p : Param) (edd : Bool) (level : Nat) (emitTypes : Bool) : Res (Option Str) :=
+/-- `_param2docstring_param((name, param))`: the block (`none` = the entry writes nothing) and the entry as the
+    function leaves it (it works on the dict it is given: the default read from the prose, the prose with its default
+    sentence, a `NoneStr` default rewritten to None all stay - the class emitter builds its attributes from that) -/
+def entryBlockP (name : Str) (p : Param) (edd : Bool) (level : Nat) (emitTypes : Bool) : Res (Option Str × Param) :=
   let sepIn := tabs level
   -- `if "doc" in _param: doc, default = extract_default(...); if default is not None: _param["default"] = default`
   let p1 : Res Param := match p.doc with
@@ -44,7 +46,6 @@ def entryBlock (name : Str) (p : Param) (edd : Bool) (level : Nat) (emitTypes : 
       match p2.doc with
       | none => .raises "KeyError"
       | some sdd =>
-        -- (`set_default_doc` works on the entry it is given: the doc and a `NoneStr` default rewritten to None stay)
         let ml := multiline (indentAllButFirstN (level - 1) sdd)
         let p3 := { p2 with doc := some ml }
         -- `emit_param_str(..., emit_type=False)`
@@ -61,9 +62,19 @@ def entryBlock (name : Str) (p : Param) (edd : Bool) (level : Nat) (emitTypes : 
     | none => none
   -- `_joiner(__param, param_type)`
   match a, b with
-  | some a, none => .ok (some (a ++ ['\n'] ++ sepIn))
-  | none, _ => .ok none
-  | some a, some b => .ok (some (reindent sepIn a ++ ['\n'] ++ sepIn ++ reindent sepIn b ++ ['\n'] ++ sepIn))
+  | some a, none => .ok (some (a ++ ['\n'] ++ sepIn), pa)
+  | none, _ => .ok (none, pa)
+  | some a, some b => .ok (some (reindent sepIn a ++ ['\n'] ++ sepIn ++ reindent sepIn b ++ ['\n'] ++ sepIn), pa)
+
+def entryBlock (name : Str) (p : Param) (edd : Bool) (level : Nat) (emitTypes : Bool) : Res (Option Str) :=
+  (entryBlockP name p edd level emitTypes).bind fun x => .ok x.1
+
+/-- the entries as `to_docstring` leaves them -/
+def mutatedParams (edd : Bool) (level : Nat) (emitTypes : Bool) : List (Str × Param) → Res (List (Str × Param))
+  | [] => .ok []
+  | (n, p) :: rest =>
+    (entryBlockP n p edd level emitTypes).bind fun x =>
+    (mutatedParams edd level emitTypes rest).bind fun r => .ok ((n, x.2) :: r)
 
 def entryBlocks (edd : Bool) (level : Nat) (emitTypes : Bool) : List (Str × Param) → Res (List Str)
   | [] => .ok []
